@@ -156,7 +156,7 @@ def run_area(area, seed, n, tier, work, tag="", mask=None, classes=None):
     def mk(x):
         # compare only the property-relevant observables
         for pat, rep in (mask or []):
-            x = re.sub(pat, rep, x)
+            x = pat(x) if callable(pat) else re.sub(pat, rep, x)
         return x
     # split into cases
     cases = []
